@@ -224,7 +224,7 @@ def run(ctx):
     okf, _, _ = coq_build(ctx, ["Findings/C20_old_idler.vo"])
     if not okf:
         ctx.note("finding C20/old-idler: Findings/C20_old_idler.v no longer compiles (the model or the code changed)")
-    n, nspec = (60, 14) if ctx.tier == "quick" else (600, 120)
+    n, nspec = (60, 14) if ctx.tier == "quick" else (2400, 400)
     if getattr(ctx, "replay", None):
         rp = json.load(open(ctx.replay if os.path.isabs(ctx.replay) else os.path.join(VERIF, ctx.replay)))
         obs = run_harness(ctx, binp, ["c20", "replay"], stdin=json.dumps(rp["detail"].get("config", {})))
